@@ -157,6 +157,12 @@ func propC18(o *propOpts) *propResult {
 			items = append(items, item{e, s})
 		}
 	})
+	// every literal form and escape kind, so that each code path of the lexer runs concurrently with itself
+	literalCases(func(s string) {
+		if len(items) < 9000 {
+			items = append(items, item{entryByName("ParseExpr"), s})
+		}
+	})
 	first := make([]obs, len(items))
 	kept := make([]callResult, len(items))
 	keptDump := make([]string, len(items))
